@@ -18,7 +18,7 @@ TRUSTED = ("Every scenario runs without a logger and (a quarter as many runs) wi
 CLAIMED = {
  "C02": dict(cat="fault_enumeration", design="5/C02",
    technique="deterministic simulation of a damaged wire: sender Frame::write -> simulated line with exactly one injected fault -> receivers Frame::from_bytes and Frame::read; single-fault placements enumerated per sampled frame",
-   text="For each sampled frame the complete single-fault space of the property (every position x every replacement byte, every deletion, duplication, adjacent swap of unequal characters, every proper prefix) is enumerated on the line the real writer produced; every damaged line is decoded directly and read through the real stream reader under injected EINTR. Oracle: an error, or exactly the original frame; an accepted line must itself be consistent (declared length = data bytes, bytes sum to 0); and lines written directly with a wrong declared length (off by 1, 128, 256, 512, zero-extended) or any of the 255 wrong checksums must be rejected. Enumeration is complete per frame; frames are sampled (including maximal-length frames and frames whose data embeds another frame).",
+   text="For each sampled frame the complete single-fault space of the property (every position x every replacement byte, every deletion, duplication, adjacent swap of unequal characters, every proper prefix) is enumerated on the line the real writer produced; every damaged line is decoded directly and read through the real stream reader under injected EINTR. Oracle: an error, or exactly the original frame; an accepted line must itself be consistent (declared length = data bytes, bytes sum to 0); and lines written directly with a wrong declared length (off by 1, 128, 256, 512, zero-extended) or any of the 255 wrong checksums must be rejected. Enumeration is complete per frame; frames are sampled (including maximal-length frames, frames whose data embeds another frame, and frames that extend the frame the receiver decoded just before). In part of the runs a related valid frame is decoded before every damaged line (a decoder may keep state between calls), and every stream read is repeated with a valid frame queued behind the damaged line, which must not be returned in its place.",
    note=TRUSTED),
  "C08": dict(cat="exploration", design="5/C08",
    technique="deterministic two-party protocol simulation with message-level fault injection and controller crash/restart; post-conditions on the real sign once faults stop",
@@ -58,11 +58,11 @@ CLAIMED = {
    note=TRUSTED + " Error variants are not compared across paths (silence = Ok(None) directly, read timeout over serial)."),
  "C18": dict(cat="exploration", design="5/C18",
    technique="deterministic simulation with a simulated clock behind the sleep seam; intervals measured at the simulated port's write/read boundaries (simulated + real monotonic time)",
-   text="Sequences of messages with scripted replies run on a real SerialSignBus whose pacing sleeps advance a simulated clock; the far end answers with simulated (and, rarely, a few real milliseconds of) latency; every interval is simulated time plus real elapsed time, so a tree that bypasses the seam or consults the real clock is still measured. Asserted: >= 30 ms from the end of a data chunk's write to the next write and to the return; >= 100 ms from receiving an in-progress report to the return; every other exchange < 30 ms (minimum over repeated trials).",
+   text="Sequences of messages with scripted replies run on a real SerialSignBus whose pacing sleeps advance a simulated clock; the far end answers with simulated (and, rarely, a few real milliseconds of) latency; every interval is simulated time plus real elapsed time, so a tree that bypasses the seam or consults the real clock is still measured. Asserted: >= 30 ms from the end of a data chunk's write to the next write and to the return; >= 100 ms from receiving an in-progress report to the return; every other exchange < 30 ms (minimum over repeated trials). A quarter of the sequences run with the calling thread holding an unpark token; some meet a port whose flush fails or whose write / read blocks in real time.",
    note=TRUSTED),
  "C20": dict(cat="fault_enumeration", design="5/C20",
    technique="deterministic device-configuration fault simulation: full product of prior port settings x entry points x failure at each configuration call",
-   text="configure_port, SerialSignBus::try_new and Odk::try_new run on a simulated serial device for the full product of prior settings representable by the settings type (12 baud classes x 4 x 3 x 2 x 3) with a failure injected at none / read_settings / set_baud_rate / write_settings / set_timeout. Without failure the device must end at 19200 8N1 without flow control and the right timeout; with a failure (one of seven error kinds, drawn) the constructor must return that very error; devices that cannot report their speed, speeds aliasing 19200 in narrower integers, sub-millisecond and huge caller timeouts, and a second setup of the same port are included. The product is exhaustive; BaudOther values and timeouts are sampled.",
+   text="configure_port, SerialSignBus::try_new and Odk::try_new run on a simulated serial device for the full product of prior settings representable by the settings type (12 baud classes x 4 x 3 x 2 x 3) with a failure injected at none / read_settings / set_baud_rate / write_settings / set_timeout. Without failure the device must end at 19200 8N1 without flow control and the right timeout; with a failure (one of seven error kinds, drawn) the constructor must return that very error; devices that cannot report their speed, speeds aliasing 19200 in narrower integers, sub-millisecond and huge caller timeouts, a second setup of the same port, and a port made of two halves that implements SerialPort itself and runs the setup closure once per half (both halves must end configured) are included. The product is exhaustive; BaudOther values and timeouts are sampled.",
    note=TRUSTED),
  "C13": dict(cat="exploration", design="5/C13",
    technique="deterministic simulation: lock-step refinement of real VirtualSign(s) against an executable reference state machine under seeded traffic and fault injection",
